@@ -2,6 +2,7 @@ package props
 
 import (
 	"encoding/json"
+	"runtime"
 	"testing"
 
 	"pgregory.net/rapid"
@@ -50,6 +51,8 @@ var c13MachineCheck = register("C13", "c13.machine", func(c *machineCase) error 
 	if err := run(c.Ops, "history"); err != nil {
 		return err
 	}
+	runtime.GC() // finalizers / pool clean-up must not touch what callers still hold
+	runtime.GC()
 	for _, w := range watch {
 		if w.changed() {
 			return failf("C13 later-mutation", "caller-owned memory changed after the call returned: %s", w.name)
